@@ -234,7 +234,8 @@ def run_tty_cases(res, exe, driver, cases, tmp, tag, compare_output=True, rng=No
             for k in sorted(c.meta["bursts"]):
                 lst = c.meta["bursts"][k]
                 total += len(lst)
-                ev[k] = list(ev.get(k, [])) + [("print_nowait", t, enc([ord(x) for x in text])) for (t, text) in lst] + [("wait_acks", total)]
+                ev[k] = list(ev.get(k, [])) + [("print_nowait", t, enc([ord(x) for x in text])) for (t, text) in lst] + \
+                    [("winch_blocked", w) for w in (c.meta.get("blocked_resizes") or {}).get(k, [])] + [("wait_acks", total)]
         jobs.append((exe, c.spec(), ch, c.cols, ev, bool(c.meta.get("sync_keys"))))
     # processes, not threads: the driver polls /proc and must not share a GIL
     import multiprocessing
